@@ -91,6 +91,15 @@ impl Bv {
         }
         r
     }
+    /// logical shift right by one (bit routing only: unknown bits move along)
+    pub fn shr1(&self) -> Bv {
+        let mut r = Bv::zero(self.width);
+        for i in 1..self.width {
+            let (p, m) = self.bit(i);
+            r.set_bit(i - 1, p, m);
+        }
+        r
+    }
     pub fn has_xz(&self) -> bool {
         self.mask.iter().any(|m| *m != 0)
     }
@@ -278,4 +287,26 @@ pub fn run(
         snaps,
         excess,
     })
+}
+
+/// The same test through `run_native_testbench`, the entry point `veryl test`
+/// uses (it additionally installs the testbench settle filter).  Only the
+/// result and the output buffer are observable here.
+pub fn run_native(
+    an: &Analyzed,
+    top: &str,
+    cfg: &EngineCfg,
+    lib: &Path,
+) -> Result<(Result<(), String>, String), String> {
+    let config = cfg.to_config(lib);
+    let top_id = veryl_parser::resource_table::insert_str(top);
+    let ir = build_ir(&an.ir, top_id, &config).map_err(|e| format!("build_ir: {e}"))?;
+    veryl_simulator::output_buffer::enable();
+    let r = veryl_simulator::testbench::run_native_testbench(ir, None, top.to_string());
+    let log = veryl_simulator::output_buffer::take();
+    match r {
+        Ok(TestResult::Pass) => Ok((Ok(()), log)),
+        Ok(TestResult::Fail(m)) => Ok((Err(m), log)),
+        Err(e) => Err(format!("run_native_testbench: {e}")),
+    }
 }
